@@ -359,6 +359,9 @@ def _eval_const(expr: str, env: dict):
     result = ev(tree.body)
     if isinstance(result, float) and (result != result or result in (float("inf"), float("-inf"))):
         raise ValueError("non-finite constant")
+    if isinstance(result, int) and not isinstance(result, bool) and result.bit_length() > 64:
+        # e.g. (2**63)**64: no device integer holds it and float() of it overflows
+        raise ValueError("constant too large to fold")
     return result
 
 
